@@ -136,6 +136,18 @@ CHECKS["C09"] = dict(
     design="§3 C09",
 )
 
+CHECKS["C10"] = dict(
+    category="model_checking",
+    text="The nondeterminism named by the statement is owned: an import hook rewrites every set display / comprehension / set() call in ariadne_codegen.* (33 sites) so that each set iteration is a choice point "
+         "(natural order = choice 0; all permutations up to size 3, reversal + adjacent transpositions + rotations beyond), and Path.glob order likewise. For 9 stress inputs (fragment fan with independent "
+         "dependencies, many enums/unions/scalars, each bundled plugin, inputs split over nested directories, custom operations, graphqlschema .py/.graphql) every run with <=1 (quick) / <=2 (thorough) deviations is "
+         "executed in a fresh forked process, for a fresh directory and for regeneration over a previous generation, and the sha256 of every file is compared with the baseline. Un-instrumented subprocess runs of the "
+         "real CLI under several PYTHONHASHSEED values and both file creation orders are compared too (and must be among the explored outputs).",
+    note="Trusted: the import-hook rewriting (validated by the all-default run equalling the un-instrumented PYTHONHASHSEED=0 subprocess run), sha256. Timestamp comment mode excluded as the statement says.",
+    technique="stateless exploration of owned set-iteration / directory-listing order choice points (deviation-bounded, exhaustive within bound) on the real generator, validated against real hash-seed runs",
+    design="§3 C10",
+)
+
 PENDING_REASON = "check not built yet in this round (work in progress, see DESIGN.md §6)"
 NOT_APPLICABLE = {}
 
